@@ -143,7 +143,81 @@ def _getlane(n):
     return f
 
 
+def _unpack64(hi):
+    def f(t):
+        a, b = bitform.bitform(t[2]), bitform.bitform(t[3])
+        o = 64 if hi else 0
+        return tuple(a[o:o + 64]) + tuple(b[o:o + 64])
+    return f
+
+
+def _and(t):
+    a, b = bitform.bitform(t[2]), bitform.bitform(t[3])
+    out = []
+    for x, y in zip(a, b):
+        if not x or not y:
+            out.append(bitform.ZERO)
+        elif x == bitform.ONE:
+            out.append(y)
+        elif y == bitform.ONE or x == y:
+            out.append(x)
+        else:
+            return None
+    return tuple(out)
+
+
+def _or(t):
+    a, b = bitform.bitform(t[2]), bitform.bitform(t[3])
+    out = []
+    for x, y in zip(a, b):
+        if not x:
+            out.append(y)
+        elif not y or x == y:
+            out.append(x)
+        elif x == bitform.ONE or y == bitform.ONE:
+            out.append(bitform.ONE)
+        else:
+            return None
+    return tuple(out)
+
+
+def _shuffle_epi8(t):
+    a, msk = _bytes(bitform.bitform(t[2])), _bytes(bitform.bitform(t[3]))
+    out = []
+    for mb in msk:
+        if any(x not in (bitform.ZERO, bitform.ONE) for x in mb):
+            return None
+        v = sum(1 << i for i, x in enumerate(mb) if x == bitform.ONE)
+        out.append(c02.bconst(0) if v & 0x80 else a[v & 15])
+    return _bits(out)
+
+
+def _alignr(t):
+    imm = _imm(t)
+    if imm is None:
+        return None
+    a, b = _bytes(bitform.bitform(t[2])), _bytes(bitform.bitform(t[3]))
+    cat = b + a + [c02.bconst(0)] * 16
+    return _bits(cat[min(imm, 32):min(imm, 32) + 16])
+
+
+def _shuffle_pd(t):
+    imm = _imm(t)
+    if imm is None:
+        return None
+    a, b = bitform.bitform(t[2]), bitform.bitform(t[3])
+    return tuple(a[64:] if imm & 1 else a[:64]) + tuple(b[64:] if imm & 2 else b[:64])
+
+
+def _ident(t):
+    return bitform.bitform(t[2])
+
+
 ISA = {
+    '_mm_unpacklo_epi64': _unpack64(False), '_mm_unpackhi_epi64': _unpack64(True), '_mm_and_si128': _and, '_mm_or_si128': _or,
+    '_mm_shuffle_epi8': _shuffle_epi8, '_mm_alignr_epi8': _alignr, '_mm_shuffle_pd': _shuffle_pd,
+    '_mm_castsi128_pd': _ident, '_mm_castpd_si128': _ident, '_mm_castsi128_ps': _ident, '_mm_castps_si128': _ident,
+    'vandq_u8': _and, 'vorrq_u8': _or,
     'vdupq_n_u32': _dup(32), 'vdupq_n_u8': _dup(8), 'vgetq_lane_u32': _getlane(32), 'vgetq_lane_u8': _getlane(8),
     '_mm_aesenc_si128': _aesenc, '_mm_aesenclast_si128': _aesenclast, '_mm_aesdec_si128': _aesdec,
     '_mm_aesdeclast_si128': _aesdeclast, '_mm_aesimc_si128': _aesimc, '_mm_aeskeygenassist_si128': _keygenassist,
@@ -175,6 +249,7 @@ def owner_new(m, backend_ty):
 def rule_N(chk, nm, F, prefixes):
     m = F.mono
     n = 0
+    undec = 0
     with equiv.TermMode():
         try:
             equiv.fresh_terms()
@@ -248,21 +323,20 @@ def rule_N(chk, nm, F, prefixes):
                     ref = []
                     for l in range(len(xs) // 16):
                         ref += (c02.fips_cipher if enc else c02.fips_inv_cipher)(xs[16 * l:16 * l + 16], rk, SB)
-                    n += 1
-                    d = c02.describe_diff(code, ref)
-                    if d:
-                        chk.violation('N-fips-197-hw', fkey, '%s (%s, %d-byte key): %s on the instance KeyInit::new builds differs from the '
-                                      'FIPS-197 %s%s under the documented instruction semantics: %s' % (
-                                          sname, nm, len(ksyms), fn['name'], 'Cipher' if enc else 'InvCipher',
-                                          '' if fn is single else ' applied to each of the %d blocks (byte index / 16 = lane)' % (len(xs) // 16), d))
+                    if c02.decide(chk, 'N-fips-197-hw', fkey, code, ref, '%s (%s, %d-byte key): %s on the instance KeyInit::new builds differs from the '
+                                   'FIPS-197 %s%s under the documented instruction semantics' % (
+                                       sname, nm, len(ksyms), fn['name'], 'Cipher' if enc else 'InvCipher',
+                                       '' if fn is single else ' applied to each of the %d blocks (byte index / 16 = lane)' % (len(xs) // 16)),
+                                   dict(backend=sname, key_bytes=len(ksyms), direction='encrypt' if enc else 'decrypt',
+                                        rounds=len(rk) - 1, config=nm, blocks=len(xs) // 16)):
+                        n += 1
                     else:
-                        chk.ok('N-fips-197-hw', fkey, dict(backend=sname, key_bytes=len(ksyms), direction='encrypt' if enc else 'decrypt',
-                                                           rounds=len(rk) - 1, config=nm, blocks=len(xs) // 16))
+                        undec += 1
         finally:
             T.BITCANON = False
             engine._INTERPS.clear()
             bitform.ISA.clear()
-    return n
+    return None if undec else n
 
 
 HW = {'x64': ('aes::ni::',), 'x64-aesni-all': ('aes::ni::',), 'a64': ('aes::armv8::',), 'a64-all': ('aes::armv8::',)}
@@ -276,4 +350,5 @@ def run(chk, facts_by_config):
         if nm not in chk.configs:
             chk.configs.append(nm)
         n = rule_N(chk, nm, F, HW[nm])
-        chk.floor('N-fips-197-hw', n, 'N.' + nm)
+        if n is not None:          # None: some instance is undecided (unmodelled operator), recorded as such
+            chk.floor('N-fips-197-hw', n, 'N.' + nm)
